@@ -327,6 +327,79 @@ OBS = [
 ]
 '''
 
+GROUPS["inh"] = '''
+from dataclasses import dataclass
+from typing import Generic, List, Optional, TypeVar
+from apischema import ValidationError
+
+T = TypeVar("T")
+
+@dataclass
+class DBase:
+    """registrations on the base class are observed on the subclass, and conversely"""
+    some_x: int = 0
+    a: Optional[int] = None
+    b: Optional[int] = None
+
+@dataclass
+class DSub(DBase):
+    y: int = 0
+
+@dataclass
+class DSubSub(DSub):
+    z: int = 0
+
+@dataclass
+class DHolder:
+    base: Optional[DBase] = None
+    sub: Optional[DSub] = None
+
+@dataclass
+class G(Generic[T]):
+    item: T
+
+def dbase_to_int(d: DBase) -> int:
+    return d.some_x
+
+def dsub_to_str(d: DSub) -> str:
+    return "sub%s" % d.y
+
+def dbase_from_int(i: int) -> DBase:
+    return DBase(i)
+
+def dsub_from_str(s: str) -> DSub:
+    return DSub(len(s), None, None, 1)
+
+def g_from_list(l: List[T]) -> G[T]:
+    return G(l[0])
+
+def g_to_list(g: G[T]) -> List[T]:
+    return [g.item]
+
+def d_neg(self):
+    if self.some_x < 0:
+        raise ValidationError("negative")
+
+def d_big(self):
+    if self.some_x > 100:
+        raise ValidationError("big")
+
+def d_plus(self) -> int:
+    return self.some_x + 10
+
+def d_str(self) -> str:
+    return "s%s" % self.some_x
+
+OBS = [
+    ("DBase", DBase, [{"some_x": 1}, {"SOME_X": -1, "A": 1}, {"some-x": 200, "b": 1}, 5, {"kind": "DSub", "y": 2}], [DBase(1, 2), DSub(3, None, 4, 5)]),
+    ("DSub", DSub, [{"some_x": 1, "y": 2}, {"SOME_X": -1, "Y": 1, "A": 1}, {"some_x": 200, "b": 1}, "abc", 5], [DSub(1, None, 2, 3), DSubSub(1, None, None, 2, 3)]),
+    ("DSubSub", DSubSub, [{"some_x": -1, "z": 1, "a": 1}, 5, "abc"], [DSubSub(1, 2, None, 3, 4)]),
+    ("DHolder", DHolder, [{"base": {"some_x": 1}, "sub": {"y": 1}}, {"base": 1, "sub": "ab"}], [DHolder(DBase(1), DSub(2)), DHolder(DSub(5))]),
+    ("G[int]", G[int], [{"item": 1}, [2, 3]], [G(1)]),
+    ("List[G[str]]", List[G[str]], [[{"item": "a"}, ["b"]]], [[G("a")]]),
+]
+'''
+
 GROUPS["union"] = '''
 from dataclasses import dataclass
 from typing import Union
@@ -356,7 +429,7 @@ class WorldFactory:
             if self.own:
                 with open(path, "w") as f:
                     f.write(src)
-            self.code[g] = compile(src, path, "exec")
+            self.code[g] = compile(src, path, "exec", dont_inherit=True)
 
     def build(self, groups: Sequence[str]) -> Dict[str, dict]:
         w = {}
@@ -665,6 +738,44 @@ def build_ops() -> List[Op]:
     add("order([c,a])(O)", "ordering", ["o"], lambda w: order(["c", "a"])(w["o"]["O"]), target='ordering[O]')
     add("order({d:before a})(OSub)", "ordering", ["o"], lambda w: order({"d": order(before="a")})(w["o"]["OSub"]), target='ordering[OSub]')
 
+    # -- base class / subclass (and generic origin / specialisation): every per-class registry -----------------------------
+    I = lambda w, n: w["inh"][n]  # noqa: E731,E741
+    for cn, fn in (("DBase", "dbase_to_int"), ("DSub", "dsub_to_str")):
+        add(f"serializer({fn})", "serializers", ["inh"], lambda w, fn=fn: serializer(I(w, fn)), target=f"serializers[{cn}]")
+        add(f"reset_serializer({cn})", "serializers", ["inh"], lambda w, cn=cn: reset_serializer(I(w, cn)), target=f"serializers[{cn}]")
+    add(
+        "serializer(Conversion(dbase_to_int,inherited=False))",
+        "serializers",
+        ["inh"],
+        lambda w: serializer(Conversion(I(w, "dbase_to_int"), source=I(w, "DBase"), target=int, inherited=False)),
+        target="serializers[DBase]",
+    )
+    for cn, fn in (("DBase", "dbase_from_int"), ("DSub", "dsub_from_str")):
+        add(f"deserializer({fn})", "deserializers", ["inh"], lambda w, fn=fn: deserializer(I(w, fn)), target=f"deserializers[{cn}]")
+        add(f"reset_deserializers({cn})", "deserializers", ["inh"], lambda w, cn=cn: reset_deserializers(I(w, cn)), target=f"deserializers[{cn}]")
+    add("deserializer(g_from_list)", "deserializers", ["inh"], lambda w: deserializer(I(w, "g_from_list")), target="deserializers[G]")
+    add("reset_deserializers(G)", "deserializers", ["inh"], lambda w: reset_deserializers(I(w, "G")), target="deserializers[G]")
+    add("serializer(g_to_list)", "serializers", ["inh"], lambda w: serializer(I(w, "g_to_list")), target="serializers[G]")
+    add("reset_serializer(G)", "serializers", ["inh"], lambda w: reset_serializer(I(w, "G")), target="serializers[G]")
+    add("type_name('BaseName')(DBase)", "type_names", ["inh"], lambda w: type_name("BaseName")(I(w, "DBase")), target="type_names[DBase]")
+    add("type_name('SubName')(DSub)", "type_names", ["inh"], lambda w: type_name("SubName")(I(w, "DSub")), target="type_names[DSub]")
+    add("schema(description,min_props)(DBase)", "schemas", ["inh"], lambda w: schema(description="base", min_props=2)(I(w, "DBase")), target="schemas[DBase]")
+    add("schema(description)(DSub)", "schemas", ["inh"], lambda w: schema(description="sub", max_props=1)(I(w, "DSub")), target="schemas[DSub]")
+    add("alias(upper)(DBase)", "class_aliasers", ["inh"], lambda w: alias(upper)(I(w, "DBase")), target="class_aliasers[DBase]")
+    add("alias(dash)(DSub)", "class_aliasers", ["inh"], lambda w: alias(lambda s: s.replace("_", "-"))(I(w, "DSub")), target="class_aliasers[DSub]")
+    add("order({b:-1})(DBase)", "ordering", ["inh"], lambda w: order({"b": order(-1)})(I(w, "DBase")), target="ordering[DBase]")
+    add("order({y:-1,b:999})(DSub)", "ordering", ["inh"], lambda w: order({"y": order(-1), "b": order(999)})(I(w, "DSub")), target="ordering[DSub]")
+    add("validator(owner=DBase)(d_neg)", "validators", ["inh"], lambda w: validator(owner=I(w, "DBase"))(I(w, "d_neg")), target="validators[DBase]")
+    add("validator(owner=DSub)(d_big)", "validators", ["inh"], lambda w: validator(owner=I(w, "DSub"))(I(w, "d_big")), target="validators[DSub]")
+    add("dependent_required({a:[b]},owner=DBase)", "dependent_required", ["inh"], lambda w: dependent_required({"a": ["b"]}, owner=I(w, "DBase")), target="dependent_required[DBase]")
+    add("dependent_required({b:[a]},owner=DSub)", "dependent_required", ["inh"], lambda w: dependent_required({"b": ["a"]}, owner=I(w, "DSub")), target="dependent_required[DSub]")
+    add("discriminator('kind')(DBase)", "discriminators", ["inh"], lambda w: discriminator("kind")(I(w, "DBase")), target="discriminators[DBase]")
+    add("discriminator('type')(DSub)", "discriminators", ["inh"], lambda w: discriminator("type")(I(w, "DSub")), target="discriminators[DSub]")
+    add("serialized(owner=DBase)(d_plus)", "serialized", ["inh"], lambda w: serialized(owner=I(w, "DBase"))(I(w, "d_plus")), target="serialized[DBase]")
+    add("serialized('m2',owner=DSub)(d_str)", "serialized", ["inh"], lambda w: serialized("m2", owner=I(w, "DSub"))(I(w, "d_str")), target="serialized[DSub]")
+    add("set_object_fields(DBase,[some_x])", "object_fields", ["inh"], lambda w: set_object_fields(I(w, "DBase"), [ObjectField("some_x", int, required=False, default=7)]), target="object_fields[DBase]")
+    add("set_object_fields(DBase,None)", "object_fields", ["inh"], lambda w: set_object_fields(I(w, "DBase"), None), target="object_fields[DBase]")
+
     # -- validators / dependent_required / discriminator / serialized methods ---------------------------------------------
     add("validator(owner=V)(v_lt)", "validators", ["v"], lambda w: validator(owner=w["v"]["V"])(w["v"]["v_lt"]), target='validators[V]')
     add("validator(owner=V)(v_pos)", "validators", ["v"], lambda w: validator(owner=w["v"]["V"])(w["v"]["v_pos"]), target='validators[V]')
@@ -827,10 +938,10 @@ def run(report, tier: str, seed: int):
     err_rep = {"minimum", "missing_property", "one_of", "pattern"}
     seq_ops = [o for o in ops if o.family != "errors" or o.target.split(".")[2] in err_rep]
 
-    n_pairs_max, n_tri_max = (150, 0) if quick else (1500, 800)
+    n_pairs_max, n_tri_max = (60, 0) if quick else (1400, 700)
     budget_s = 110 if quick else 1000  # safety stop only (recorded as `truncated` in the evidence when hit)
-    n_walks = 4 if quick else 20
-    walk_len = 12 if quick else 25
+    n_walks = 2 if quick else 20
+    walk_len = 10 if quick else 25
     log = report.driver(
         "histories_vs_cold_start",
         bound=f"alphabet of {len(ops)} configuration operations on {len(targets)} configuration cells in {len(families)} families (the 5 settings classes incl. all {len(families['errors']) // 2} error messages, "
